@@ -69,8 +69,8 @@ func init() {
 		if thorough {
 			nh, ncrc, nfiles, maxLen = 50, 65536, 200, 6000
 		}
-		return []CaseSet{genHeaders(r, nh, ncrc), genBursts(r, nfiles, maxLen, thorough), genAcceptedAnyReader(r, nfiles/2, maxLen)},
-			"headers: random field values x {matching CRC, " + strconv.Itoa(ncrc) + " stored CRCs, every single-byte corruption of every header byte, illegal sizes 0-255} through Header.CheckIntegrity, DecodeHeader and CheckIntegrity(headerOnly) (verdicts must agree); bursts: valid files (corpus + generated, both header sizes) x every start bit x window lengths 1-16 x patterns outside header bytes 0 and 4-7, plus value-targeted overwrites of aligned byte pairs (zero, all ones, swapped, checksum of the prefix, complement, ...) at the header fields, header CRC, record start and file CRC, through CheckIntegrity and Decode (must both reject); accepted files through CheckIntegrity and Decode behind readers that deliver 1, 2, 3, 7, 13, 4095 … bytes per call, short reads and data-with-EOF (a file Decode accepts must pass CheckIntegrity whatever the reader)", false
+		return []CaseSet{genHeaders(r, nh, ncrc), genBursts(r, nfiles, maxLen, thorough), genAcceptedAnyReader(r, nfiles/2, maxLen), genHeaderMismatch(r, nfiles, maxLen)},
+			"headers: random field values x {matching CRC, " + strconv.Itoa(ncrc) + " stored CRCs, every single-byte corruption of every header byte, illegal sizes 0-255} through Header.CheckIntegrity, DecodeHeader and CheckIntegrity(headerOnly) (verdicts must agree); bursts: valid files (corpus + generated, both header sizes) x every start bit x window lengths 1-16 x patterns outside header bytes 0 and 4-7, plus value-targeted overwrites of aligned byte pairs (zero, all ones, swapped, checksum of the prefix, complement, ...) at the header fields, header CRC, record start and file CRC, through CheckIntegrity and Decode (must both reject); files whose 14-byte header does not match its stored non-zero CRC while the trailing file CRC was recomputed to fit (only the header CRC can reject them): CheckIntegrity, Decode, DecodeHeader and DecodeHeaderAndFileID must all reject; accepted files through CheckIntegrity and Decode behind readers that deliver 1, 2, 3, 7, 13, 4095 … bytes per call, short reads and data-with-EOF (a file Decode accepts must pass CheckIntegrity whatever the reader)", false
 	}
 	propPost["C04"] = postC04
 }
@@ -214,6 +214,35 @@ func genBursts(r *rng, nfiles, maxLen int, thorough bool) CaseSet {
 	return cs
 }
 
+// genHeaderMismatch: valid files with a 14-byte header and a non-zero header CRC, one of whose
+// header bytes 1-3 (protocol minor bits, profile version) or header CRC bytes was changed, with the
+// trailing file CRC recomputed: the file CRC fits, only the header CRC does not.
+func genHeaderMismatch(r *rng, nfiles, maxLen int) CaseSet {
+	cs := CaseSet{Name: "header-crc-mismatch-file-crc-fits"}
+	for _, f := range validFiles(r, nfiles, maxLen) {
+		if len(f) > maxLen || len(f) < 16 || f[0] != 14 || (f[12] == 0 && f[13] == 0) {
+			continue
+		}
+		for _, pos := range []int{2, 3, 12, 13, 1} {
+			b := append([]byte{}, f...)
+			if pos == 1 {
+				b[1] ^= 0x01 // minor protocol version: still a supported major
+			} else {
+				b[pos] ^= byte(1 << uint(r.intn(8)))
+			}
+			if b[12] == 0 && b[13] == 0 {
+				continue // a zero header CRC means "not computed"
+			}
+			c := ownCRC(b[:len(b)-2])
+			b[len(b)-2], b[len(b)-1] = byte(c), byte(c>>8)
+			for _, e := range []string{"integ", "decode", "header", "headerfid", "integhdr"} {
+				cs.Cases = append(cs.Cases, decCase(e, "000", "-", "-", b))
+			}
+		}
+	}
+	return cs
+}
+
 // genAcceptedAnyReader: valid files through CheckIntegrity and Decode under every read schedule.
 func genAcceptedAnyReader(r *rng, nfiles, maxLen int) CaseSet {
 	cs := CaseSet{Name: "accepted-any-reader"}
@@ -248,6 +277,10 @@ func postC04(res *RunResult) {
 	for i, c := range res.Stats.cases {
 		out := res.Stats.impl[i]
 		switch res.Stats.setOf[i] {
+		case "header-crc-mismatch-file-crc-fits":
+			if dr, ok := parseDecRes(out); ok && dr.tag == "ok" {
+				addViolation(res, c, out, "a header whose stored non-zero CRC does not match its bytes was accepted (the file CRC fits)")
+			}
 		case "accepted-any-reader":
 			dc, ok := parseDecCase(c)
 			dr, ok2 := parseDecRes(out)
